@@ -10,7 +10,7 @@ import json
 from .. import SRC
 from ..common import HarnessError, chunked, pmap
 from ..sched import ScheduleExplorer, Scheduler, install_coop_locks
-from ..world import get_world
+from ..world import flat, get_world
 
 
 def scenarios(w):
@@ -111,7 +111,7 @@ def make_check(w, sc):
                 + ", ".join(f"T{i}:{id(o):#x}" for i, o in enumerate(objs)),
             )
         table = sc["table"]()
-        entries = [v for v in table.values() if v is first]
+        entries = [v for v in flat(table) if v is first]
         if len(entries) != 1:
             return "table", ("intern_table_entry_count", f"{len(entries)} intern-table entries hold the object")
         later = sc["after"]()
@@ -119,12 +119,12 @@ def make_check(w, sc):
             return "later_differs", ("later_evaluation_differs", "an evaluation after the join returns another object")
         if "also" in sc:
             tab, obj = sc["also"]()
-            if sum(1 for v in tab.values() if v is obj) != 1:
+            if sum(1 for v in flat(tab) if v is obj) != 1:
                 return "table2", ("intern_table_entry_count", "nested object not interned exactly once")
         # no second interned object of the same structure
         if hasattr(first, "factors") and hasattr(first, "prefix"):
             k = w.ukey(first)
-            same = [u for u in w.m.Unit._known.values() if w.ukey(u) == k]
+            same = [u for u in flat(w.m.Unit._known) if isinstance(u, w.m.Unit) and w.ukey(u) == k]
             if len(same) != 1:
                 return "dup_structure", ("duplicate_structure", f"{len(same)} interned units share the structure {k}")
         return "ok", None
